@@ -151,6 +151,28 @@ def ownership_configs(tier):
           ('3 pools x 1 worker, preemption bound 2', 2, three)]
 
 
+def race_configs(tier):
+  a = 'x'
+  ops = [('register', a, 5.0), ('refresh', a, 5.0), ('refresh', a, 9.0),
+         ('unregister', a), ('get', a)]
+  inits = [[], [('register', a, 1.0)], [('unregister', a)]]
+  out = []
+  for init in inits:
+    for o1, o2 in itertools.combinations_with_replacement(ops, 2):
+      out.append(('registry_race', dict(init=init, progs=[[o1], [o2]])))
+    for o1 in ops[:4]:
+      for o2 in ops[:4]:
+        out.append(('registry_race',
+                    dict(init=init, progs=[[o1, ('get', a)], [o2]])))
+  three = [('registry_race', dict(init=[('register', a, 1.0)],
+                                  progs=[[('refresh', a, 5.0)], [('unregister', a)],
+                                         [('refresh', a, 9.0)]])),
+           ('registry_race', dict(init=[('register', a, 1.0)],
+                                  progs=[[('refresh', a, 9.0)], [('refresh', a, 5.0)],
+                                         [('get', a)]]))]
+  return out, three
+
+
 def run(ctx):
   depth_reg = 4 if ctx.quick else 6
   depth_live = 4 if ctx.quick else 5
@@ -161,7 +183,12 @@ def run(ctx):
       'rebuilt by replay and compared with a dict model; '
       f'(a2) every history of <= {depth_live} liveness events from '
       f'{list(charness.LIVENESS_OPS)} on a real client/server pair with virtual '
-      'time; (b) stateless DFS (happens-before caching) of pool programs: '
+      f'time; (a3) {len(race_configs(ctx.tier)[0])} two-thread and 2 three-thread '
+      'programs of concurrent registry operations (register / refresh / '
+      'unregister / get on one address, 3 initial states), every schedule with '
+      f'<= {2 if ctx.quick else 3} preemptions, outcome must be linearizable '
+      'w.r.t. the dict model; (b) stateless DFS (happens-before caching) of '
+      'pool programs: '
       + '; '.join(f'{label} ({len(cfgs)} program tuples)'
                   for label, _, cfgs in groups) + '.')
   ctx.assumptions += [
@@ -177,6 +204,12 @@ def run(ctx):
   for label, bound, cfgs in groups:
     explorer.explore_all(ctx, MODULE, cfgs, pre_bound=bound, split=8,
                          hb_cache=True)
+  races, races3 = race_configs(ctx.tier)
+  explorer.explore_all(ctx, MODULE, races, pre_bound=2 if ctx.quick else 3,
+                       hb_cache=True)
+  explorer.explore_all(ctx, MODULE, races3, pre_bound=1 if ctx.quick else 2,
+                       hb_cache=True)
+  ctx.notes['registry_race_programs'] = len(races) + len(races3)
   ctx.notes['liveness_histories'] = len(hists)
   ctx.notes['bounds'] = [[label, len(cfgs)] for label, _, cfgs in groups]
   ctx.notes['hb_cache'] = True
